@@ -21,7 +21,7 @@ fn main() {
     match args[1].as_str() {
         "list" => {
             for s in vh::subjects::all_subjects() {
-                println!("{} {} bs={} keysize={} lens={:?} size_of={}", s.krate(), s.name(), s.bs(), s.key_size(), s.key_lens(), s.size_of());
+                println!("{} {} bs={} keysize={} lens={:?} size_of={} alg={:?}", s.krate(), s.name(), s.bs(), s.key_size(), s.key_lens(), s.size_of(), s.alg_name());
             }
         }
         "run" => {
